@@ -65,7 +65,7 @@ def bounds(tier, seed):
         "restarts": "every p in S_N scripted through torch.randperm (samples=1), N<=4 (N=5: thorough)",
         "default_call": "samples=100 with a scripted seeded randperm stream",
         "structured": ["ring", "star", "r6", "shuffled_chain"],
-        "helpers": "all p in S_N, N<=5" + (" and N=6" if tier == "thorough" else ""),
+        "block5": "all 59049 symmetric 5x5 matrices over {0,1,3} (quick: every third block of 729), identity start + chained second call", "helpers": "all p in S_N, N<=5 (single- and multi-character labels, integers)" + (" and N=6" if tier == "thorough" else ""),
     }
 
 
@@ -86,6 +86,13 @@ def cases(tier, seed):
         for k, m in enumerate(_sym(6, [0.0, 1.0])):
             if k % 7 == 0:
                 yield {"family": "matrix", "M": m, "all_restarts": False, "default": False, "single": True, "seed": seed}
+    # N=5 with three weights, in blocks of 729 matrices: identity start only (samples=0) and, chained, the optimiser applied again to its own
+    # output (an input that is already well ordered - the state reached from elsewhere)
+    nblocks = 3**10 // 729
+    for b in range(nblocks):
+        if tier == "quick" and b % 3:
+            continue
+        yield {"family": "block5", "block": b, "seed": seed}
     for n in (10, 30) if tier == "thorough" else (10,):
         for kind in ("ring", "star", "r6", "shuffled_chain"):
             yield {"family": "matrix", "M": _structured(n, kind), "all_restarts": False, "default": True, "seed": seed}
@@ -140,6 +147,8 @@ def run_case(case):
 
         n = case["N"]
         labels = [chr(ord("a") + k) for k in range(n)]
+        words = [f"q{10 + k}" for k in range(n)]  # multi-character labels (a one-element list must stay a one-element list)
+        ints = list(range(100, 100 + n))
         vec = torch.arange(n, dtype=torch.float64) * 1.5 + 1
         mat = torch.arange(n * n, dtype=torch.float64).reshape(n, n)
         cnt = 0
@@ -155,6 +164,12 @@ def run_case(case):
             ve = P.permute_tensor(vec, pt)
             ma = P.permute_tensor(mat, pt) if n > 0 else mat
             exp = [labels[k] for k in p]
+            try:
+                lw, tw, lint = P.permute_list(words, pt), P.permute_tuple(tuple(words), pt), P.permute_list(ints, pt)
+            except Exception as e:
+                return result(False, sig="helpers|raises", msg=f"N={n} p={list(p)}: permuting {words} / {ints} raised {type(e).__name__}: {e}", outcome="viol")
+            if lw != [words[k] for k in p] or list(tw) != [words[k] for k in p] or not isinstance(tw, tuple) or lint != [ints[k] for k in p]:
+                return result(False, sig="helpers|multi-character-labels", msg=f"N={n} p={list(p)}: list {lw} tuple {tw} ints {lint} expected {[words[k] for k in p]}", outcome="viol")
             if li != exp or list(tu) != exp or st != "".join(exp):
                 return result(False, sig="helpers|list-tuple-string", msg=f"p={list(p)}: list {li} tuple {tu} string {st} expected {exp}", outcome="viol")
             if ve.tolist() != [vec[k].item() for k in p]:
@@ -166,6 +181,28 @@ def run_case(case):
                 return result(False, sig="helpers|inverse-does-not-undo", msg=f"p={list(p)}", outcome="viol")
         return result(True, outcome=["helpers", n, cnt], states=cnt, transitions=8 * cnt)
 
+    if case["family"] == "block5":
+        vals5 = [0.0, 1.0, 3.0]
+        pairs = list(itertools.combinations(range(5), 2))
+        cnt = 0
+        for k in range(case["block"] * 729, (case["block"] + 1) * 729):
+            digits = [(k // 3**i) % 3 for i in range(10)]
+            M = [[0.0] * 5 for _ in range(5)]
+            for (i, j), dgt in zip(pairs, digits):
+                M[i][j] = M[j][i] = vals5[dgt]
+            out = _call(M, 0, [[0, 1, 2, 3, 4]])
+            cnt += 1
+            err = _verify(M, out, "identity start (samples=0)")
+            if err:
+                return result(False, sig="block5|" + err.split(":")[1][:30].strip(), msg=f"{err}; M={M}", outcome="viol", states=cnt, transitions=cnt)
+            p1 = [int(x) for x in out.tolist()]
+            M2 = [[M[p1[a]][p1[b]] for b in range(5)] for a in range(5)]
+            out2 = _call(M2, 0, [[0, 1, 2, 3, 4]])
+            cnt += 1
+            err = _verify(M2, out2, "second call on the already optimised matrix")
+            if err:
+                return result(False, sig="chained|" + err.split(":")[1][:30].strip(), msg=f"{err}; M (already optimised once)={M2}", outcome="viol", states=cnt, transitions=cnt)
+        return result(True, outcome=["block5", case["block"]], states=cnt, transitions=cnt, nontrivial=True)
     M = case["M"]
     n = len(M)
     nontriv = any(M[i][j] != 0 for i in range(n) for j in range(n) if i != j)
@@ -189,6 +226,16 @@ def run_case(case):
             err = _verify(M, out, f"restart from {p}")
             if err:
                 return result(False, sig="restart|" + err.split(":")[1][:30].strip(), msg=f"{err}; M={M}", outcome="viol")
+        if perms_seen and n >= 3:
+            # chained: optimise the optimiser's own output again (identity start only and one restart)
+            p1 = list(sorted(perms_seen)[0])
+            M2 = [[M[p1[a]][p1[b]] for b in range(n)] for a in range(n)]
+            for samples, script in ((0, [list(range(n))]), (1, [list(range(n))[::-1]])):
+                out2 = _call(M2, samples, script)
+                runs += 1
+                err = _verify(M2, out2, f"second call (samples={samples}) on the already optimised matrix")
+                if err:
+                    return result(False, sig="chained|" + err.split(":")[1][:30].strip(), msg=f"{err}; M (already optimised once)={M2}", outcome="viol")
         if case.get("default"):
             r = np.random.RandomState(case["seed"] + 3 * n)
             script = [r.permutation(n).tolist() for _ in range(100)]
